@@ -69,7 +69,7 @@ def check(ctx):
     ctx.ob("OWN.registry.writers", ci.node, "the registry is written only by __init__", ok, f"writers: {sorted(set(writers))}")
     gs = ci.own_methods.get("__getstate__")
     ss = ci.own_methods.get("__setstate__")
-    ok = gs is not None and any(Pat("self.token").match(r.value) is not None for r in returns(gs)) and len(returns(gs)) == 1
+    ok = gs is not None and (all(Pat("self.token").match(r.value) is not None for r in returns(gs)) and bool(returns(gs))) and len(returns(gs)) == 1
     ctx.ob("DELEG.pickle.getstate", gs or ci.node, "__getstate__ returns self.token", ok)
     ok = ss is not None and bool(find("self.__init__(token)", ss)) and [a.arg for a in ss.args.args] == ["self", "token"]
     ctx.ob("DELEG.pickle.setstate", ss or ci.node, "__setstate__(token) -> self.__init__(token)", ok)
@@ -77,7 +77,7 @@ def check(ctx):
     ctx.ob("DELEG.pickle.no-reduce", ci.node, "no __reduce__ bypasses the token state", ok, nontrivial=False)
     for meth, pat in (("acquire", "self.lock.acquire(*args, **kwargs)"), ("release", "self.lock.release(*args, **kwargs)"), ("locked", "self.lock.locked()")):
         f = ci.own_methods.get(meth)
-        ok = f is not None and any(Pat(pat).match(r.value) is not None for r in returns(f))
+        ok = f is not None and (all(Pat(pat).match(r.value) is not None for r in returns(f)) and bool(returns(f)))
         ctx.ob("DELEG.lock-api", f or ci.node, f"{meth} -> {pat}", ok)
     en = ci.own_methods.get("__enter__")
     ex = ci.own_methods.get("__exit__")
